@@ -241,3 +241,42 @@ def run(ctx):
         "the class of shrunk arcs is inherited from the lattice case by LawParShrunk (model-checked for M = 1..3); their z-margin is evaluated in floats from the exact integers",
         "catalogue meshes are proved well-formed by TLC (Catalog.tla)",
     ]
+
+
+def replay(path):
+    """./check X01 --replay <file>: re-run the arc-level cases of a replay file and have TLC judge them again."""
+    import json
+    import shutil
+
+    from harness import core
+
+    with open(path) as fh:
+        data = json.load(fh)
+    ctx = core.Ctx(PROP, "replay", 0)
+    try:
+        cases = []
+        for n, v in enumerate(data.get("cases", [])):
+            r = v["replay"]
+            if r.get("kind") == "P":
+                cases.append({"kind": "P", "id": "P:%d" % n, "K": 1, "a": r["a"], "b": r["b"], "o": [[r["c"], r["d"]]], "theta": r["theta"],
+                              "jseed": r["jseed"], "j0": r["j"] - 1, "key": v["key"]})
+            elif r.get("kind") == "Z":
+                cases.append({"kind": "Z", "id": "Z:%d" % n, "K": 1, "a": r["a"], "b": r["b"], "cs": [r["cz"]], "kz": r["kz"], "theta": r["theta"],
+                              "jseed": r["jseed"], "j0": r["j"] - 1, "key": v["key"]})
+            elif r.get("kind") == "SZ":
+                cases.append({"kind": "SZ", "id": "SZ:%d" % n, "K": 1, "a": r["a"], "b": r["b"], "p": r["p"], "ks": X.S_KS, "jseed": r["jseed"], "key": v["key"]})
+            else:
+                print("not replayed individually (re-run the tier): %s" % v["key"])
+        X.warm_up()
+        recs = [_replay_any(c) for c in cases]
+        V, _ = X.judge(ctx, recs, "re-judge %d replayed cases" % len(recs))
+        bad = {}
+        for v in V:
+            bad.setdefault(v[1], []).append(sorted(v[6]))
+        for c, rec in zip(cases, recs):
+            print("%s  %s  impl(per variant)=%s" % ("FAILS" if c["id"] in bad else "holds", c["key"], json.dumps(rec["r"])[:200]))
+            if c["id"] in bad:
+                print("    failed (clause, variant): %s" % bad[c["id"]])
+        return 1 if bad else 0
+    finally:
+        shutil.rmtree(ctx.work, ignore_errors=True)
